@@ -5,9 +5,14 @@ cd "$(dirname "$0")"
 ROOT=$(pwd)
 cd "$ROOT/coq"
 # generated tables must exist before coq_makefile lists them
-if [ -x "$ROOT/harness/gen_tables.sh" ]; then "$ROOT/harness/gen_tables.sh"; fi
-{ echo "-Q theories PGA"; echo "-Q gen PGAgen"; echo "-Q props PGAprops";
-  find theories gen props -name '*.v' | LC_ALL=C sort; } > _CoqProject
+# a translator failure must not take the other properties down: it is recorded and reported by the check of C20
+if [ -x "$ROOT/harness/gen_tables.sh" ]; then
+  if "$ROOT/harness/gen_tables.sh" 2> gen/STATUS.err; then echo ok > gen/STATUS; else echo failed > gen/STATUS; fi
+fi
+# property files (props/) are NOT part of this build: each check recompiles its own property file, so that a proof obligation broken by a
+# change of /repo (e.g. props/C20.v over the regenerated table) only affects that property
+{ echo "-Q theories PGA"; echo "-Q gen PGAgen";
+  find theories gen -name '*.v' | LC_ALL=C sort; } > _CoqProject
 timeout 3000 coq_makefile -f _CoqProject -o Makefile > /dev/null
 timeout 3000 make -j16 2>&1 | grep -v '^COQDEP\|^COQC\|^make\[' || true
 # make's status is lost by the pipe: re-run (no-op when complete) to get it
